@@ -35,7 +35,8 @@ MANIFEST = {
              "(4) closed forms of the event finders with every coefficient written out, callee values (Epoch.get_date / "
              "is_leap / get_doy, Epoch(x), Angle(0,0,p)) as satisfiable hypotheses: node passages (both) and apogee in the "
              "quick tier, perigee and both maximum declinations in the thorough tier only (T15_* in C15_heavy.v, not in "
-             "THEOREMS); moon_phase: closed form of all four targets (C15_p_moon_phase_*.v written by mkphase.py: decimal year with the 365/366 case, k = round((yr-2000)*12.3685, 0) + 0/0.25/0.5/0.75, mean phase, E, M, M', F, Omega, 14 planetary arguments, the 25-term periodic sum per target, W for the quarters, 14 additional terms; evaluated with a let-abstracting call-by-value driver C15_tac3.v, ~80 s per target), deviation C = 0.953 / 1.179 / 0.953 / 1.173 d, hence new < first < full < last < next new inside a lunation (5.2..9.6 d apart), same-phase spacing 29.53 d +- 2C, and consecutive new moons / full moons 29.2..29.9 d apart (term-by-term difference bound, C15_new_moon_spacing / C15_full_moon_spacing); TypeError / ValueError refusals "
+             "THEOREMS), and in the thorough tier the Epoch(x) hypothesis of the node-passage and apogee closed forms is "
+             "discharged with property C02's constructor theorem (T15_*_exact in C15_exact.v); moon_phase: closed form of all four targets (C15_p_moon_phase_*.v written by mkphase.py: decimal year with the 365/366 case, k = round((yr-2000)*12.3685, 0) + 0/0.25/0.5/0.75, mean phase, E, M, M', F, Omega, 14 planetary arguments, the 25-term periodic sum per target, W for the quarters, 14 additional terms; evaluated with a let-abstracting call-by-value driver C15_tac3.v, ~80 s per target), deviation C = 0.953 / 1.179 / 0.953 / 1.173 d, hence new < first < full < last < next new inside a lunation (5.2..9.6 d apart), same-phase spacing 29.53 d +- 2C, and consecutive new moons / full moons 29.2..29.9 d apart (term-by-term difference bound, C15_new_moon_spacing / C15_full_moon_spacing); TypeError / ValueError refusals "
              "of all four finders for the listed bad arguments; (5) C15_finder_timing: on the window -41 <= T <= 21 the "
              "result deviates from J0 + B k by at most C (interval arithmetic on the proved coefficients), 2C < B, hence "
              "results are strictly ordered and B +- 2C apart IN THE INDEX k (not in the query epoch); (6) spec lemmas "
@@ -72,6 +73,7 @@ CLAUSES = {
     "moon_phase closed form (4 targets: decimal year y + doy/(365|366), k = round((yr-2000)*12.3685,0) + 0/0.25/0.5/0.75, mean phase polynomial, E, M/M'/F/Omega, 14 planetary arguments, periodic sum per target with every coefficient, W for the quarters (negated for 'last'), additional terms)": "proved [ideal; C15_moon_phase_new/first/full/last; Epoch.get_date/is_leap/get_doy values and Epoch(x) as hypotheses (Epoch_of E: Epoch(x) stores E x, E uninterpreted); refusals proved]",
     "phases in order inside a lunation (new < first < full < last < next new, 5.2..9.6 d apart) on the index window -41 <= k/1236.85 <= 21": "proved [ideal + lra from the deviation bounds C = 0.953 / 1.179 / 0.953 / 1.173 d, C15_phase_order; in the index n, not in the query epoch]",
     "successive same-phase instants 29.2..29.9 d apart": "proved [ideal] for new moons and for full moons (C15_new_moon_spacing / C15_full_moon_spacing: every index k with k, k+1 in the window -41 <= k/1236.85 <= 21; term-by-term difference bound 0.3136 d on the proved coefficients, C15_d_moon_phase_*.v written by mkdiff.py); quarters: 29.1..30.0 d by the same bound (C15_first_quarter_spacing / C15_last_quarter_spacing) - they really vary 29.18..29.93 d, outside the property's figure; searched (29.15..29.95) on every calendar day of the sample years; in the index k, not in the query epoch",
+    "Epoch(x) hypothesis of the finder closed forms": "discharged in the thorough tier for the node passages and the apogee (T15_*_exact in C15_exact.v): property C02's Epoch_ctor_exact_ideal is imported, the instant handed to Epoch() lies in its range for a fractional year in -2000..4001; remaining hypotheses: the values of Epoch.get_date / is_leap / get_doy (and Angle(0,0,p)); perigee / declinations keep the hypothesis (their evaluation costs 5-7 min and 6-8 GB once already)",
     "finder closed forms: perigee, northern / southern maximum declination (T15_* in C15_heavy.v)": "proved in the thorough tier [ideal; same hypotheses; 5-7 min and 6-8 GB each, therefore not compiled in quick and not listed in THEOREMS]",
     "finder closed forms on the regenerated code (ascending/descending node passages, apogee; quick tier): index k = round((year - y0) rate, 0) + target offset from the fractional year, result Epoch(mean(k) + periodic terms) [+ Angle(parallax) / Angle(declination)], every coefficient": "proved [ideal; Epoch.get_date/is_leap/get_doy values, Epoch(x) and Angle(0,0,p) as hypotheses]",
     "deviation |result - (J0 + B k)| <= C on -41 <= T <= 21 with 2C < B (C = 1.28 / 1.96 / 4.20 / 2.16 d nodes / apogee / perigee / declination) => consecutive results strictly ordered, B +- 2C apart, never backwards": "proved [ideal + spec: interval arithmetic on the proved coefficients, C15_finder_timing; tied to the generated finders; ordering/spacing is in the index k, NOT in the query epoch: 'never backwards as the query advances' additionally needs the fractional year to be non-decreasing in the epoch (C16) and is searched]",
@@ -89,6 +91,10 @@ def proof_files(tier):
           + ["C15_f_%s.v" % t for t in FINDER_TARGETS_QUICK] + ["C15_e_%s.v" % f for f in FINDER_NAMES])
     if tier != "quick":
         fs += ["C15_f_%s.v" % t for t in FINDER_TARGETS_THOROUGH] + ["C15_heavy.v"]
+        # the quick-tier closed forms again, with Epoch(x) = the Epoch holding x (property C02's Epoch_ctor_exact_ideal:
+        # 5-6 min + 16 shards per build directory) instead of a hypothesis: T15_*_exact in C15_exact.v, not in THEOREMS
+        fs += (["../C02/C02_ctor_spec.v"] + ["../C02/C02_ctor_rt_%02d.v" % k for k in range(16)] + ["../C02/C02_ctor_ideal.v"]
+               + ["C15_x_%s.v" % t for t in FINDER_TARGETS_QUICK] + ["C15_exact.v"])
     # Moon.moon_phase, 4 targets: let-abstracting call-by-value driver (C15_tac3.v), ~80 s per target file
     fs += ["C15_tac3.v"] + ["C15_p_moon_phase_%s.v" % t for t in ("new", "first", "full", "last")] + ["C15_phase.v", "C15_diff.v", "C15_d_moon_phase_new.v", "C15_d_moon_phase_full.v",
            "C15_d_moon_phase_first.v", "C15_d_moon_phase_last.v", "C15_s3.v"]
